@@ -1,7 +1,7 @@
 """C20  Optimistic concurrency control prevents lost updates."""
 import ast
 from ..loader import dotted, walk_no_nested, norm, head, calls_in, names_in
-from ..q import nodes_calling
+from ..q import reaching_defs, value_of_def, nodes_calling
 
 EXPLANATION = """
 Static clauses decided (necessary conditions of C20):
@@ -74,13 +74,21 @@ def run(ctx):
         for a in stmts:
             if not (isinstance(a, ast.AugAssign) and isinstance(a.op, ast.BitOr) and isinstance(a.target, ast.Attribute) and a.target.attr == '_rbits_'): continue
             owner = norm(a.target.value)
-            exprs = [a.value]; seen = set()
-            for _ in range(3):          # follow local names back to their definitions
-                for e in list(exprs):
+            # follow local names back to the definitions that reach this statement (a local such as `bit` may be bound more than once)
+            g_ = ctx.cg.cfg(fn)
+            at = [x for x in g_.nodes if x.kind == 'stmt' and x.ast is a]
+            exprs = [a.value]
+            if at:
+                work = [(a.value, at[0], 0)]; seen = set()
+                while work:
+                    e, where, depth = work.pop()
+                    if depth >= 3: continue
                     for nm in [x.id for x in ast.walk(e) if isinstance(x, ast.Name)]:
-                        if nm in seen: continue
-                        seen.add(nm)
-                        exprs += [x.value for x in stmts if isinstance(x, ast.Assign) and any(dotted(t) == nm for t in x.targets)]
+                        for d in reaching_defs(g_, where, nm):
+                            if (d.id, nm) in seen: continue
+                            seen.add((d.id, nm))
+                            v = value_of_def(d, nm)
+                            if v is not None: exprs.append(v); work.append((v, d, depth + 1))
             recvs = {norm(y.value) for e in exprs for y in ast.walk(e) if isinstance(y, ast.Attribute) and y.attr in ('_bits_except_volatile_', '_bits_', '_all_bits_except_volatile_')}
             if not recvs: continue      # bits copied from the object's own _wbits_ etc.
             nown += 1
